@@ -167,7 +167,7 @@ fn ref_u8(a: &UnixStr) -> Option<u8> {
     }
     if v > 255 { None } else { Some(v as u8) }
 }
-fn ref_b(args: &[&'static UnixStr]) -> Result<RefB, ()> {
+fn ref_b(args: &[&'static UnixStr], has_num: bool, has_rep: bool) -> Result<RefB, ()> {
     let mut num = None;
     let mut rep = [None; 2];
     let mut nrep = 0;
@@ -175,13 +175,13 @@ fn ref_b(args: &[&'static UnixStr]) -> Result<RefB, ()> {
     let mut i = 0;
     while i < args.len() {
         let a = args[i];
-        if is(a, b"-n") || is(a, b"--num") {
+        if has_num && (is(a, b"-n") || is(a, b"--num")) {
             i += 1;
             if i >= args.len() {
                 return Err(());
             }
             num = Some(ref_u8(args[i]).ok_or(())?);
-        } else if is(a, b"-r") {
+        } else if has_rep && is(a, b"-r") {
             i += 1;
             if i >= args.len() {
                 return Err(());
@@ -199,23 +199,47 @@ fn ref_b(args: &[&'static UnixStr]) -> Result<RefB, ()> {
         }
         i += 1;
     }
-    Ok(RefB { num: num.ok_or(())?, nrep, rep, pos })
+    Ok(RefB { num: if has_num { num.ok_or(())? } else { 0 }, nrep, rep, pos })
 }
-macro_rules! c20_b {
+macro_rules! c20_b1 {
     ($name:ident, $n:expr, $u:expr) => {
         #[kani::proof]
         #[kani::unwind($u)]
         #[kani::stub(core::fmt::write, stub_fmt_write)]
         fn $name() {
             let (args, n) = any_args::<$n>();
-            let want = ref_b(&args[..n]);
+            let want = ref_b(&args[..n], true, false);
             kani::cover!(matches!(&want, Ok(w) if w.num == 255), "largest number accepted");
-            kani::cover!(matches!(&want, Ok(w) if w.nrep == 1 && w.num > 9), "repeated option used");
             kani::cover!(want.is_err() && n == $n, "rejected");
-            let got = ShapeB::arg_parse(&mut args.into_iter().take(n));
+            let got = ShapeB1::arg_parse(&mut args.into_iter().take(n));
             match (got, want) {
                 (Ok(g), Ok(w)) => {
                     assert!(g.num == w.num, "numeric value");
+                    assert!(g.pos.is_some() == w.pos.is_some());
+                    if let (Some(a), Some(b)) = (g.pos, w.pos) {
+                        assert!(same(a, b), "positional value");
+                    }
+                }
+                (Err(_), Err(())) => {}
+                (Ok(_), Err(())) => assert!(false, "accepted a command line outside the grammar"),
+                (Err(_), Ok(_)) => assert!(false, "rejected a command line of the grammar"),
+            }
+        }
+    };
+}
+macro_rules! c20_b2 {
+    ($name:ident, $n:expr, $u:expr) => {
+        #[kani::proof]
+        #[kani::unwind($u)]
+        #[kani::stub(core::fmt::write, stub_fmt_write)]
+        fn $name() {
+            let (args, n) = any_args::<$n>();
+            let want = ref_b(&args[..n], false, true);
+            kani::cover!(matches!(&want, Ok(w) if w.nrep == 1), "repeated option used once");
+            kani::cover!(want.is_err() && n == $n, "rejected");
+            let got = ShapeB2::arg_parse(&mut args.into_iter().take(n));
+            match (got, want) {
+                (Ok(g), Ok(w)) => {
                     assert!(g.rep.len() == w.nrep, "number of repeated values");
                     let mut i = 0;
                     while i < g.rep.len() && i < 2 {
@@ -235,12 +259,14 @@ macro_rules! c20_b {
         }
     };
 }
-// @ob C20 thorough shape_b_3x3 fns=<ShapeB as ArgParse>::arg_parse(derive),u8::from_str,UnixStr::as_str bound="<=3 arguments of <=3 arbitrary bytes each" stubs="core::fmt::write -> Ok, writes nothing" timeout=2400 mem=44
-c20_b!(shape_b_3x3, 3, 6);
-// @ob C20 quick shape_b_2x3 fns=<ShapeB as ArgParse>::arg_parse(derive),u8::from_str,UnixStr::as_str bound="<=2 arguments of <=3 arbitrary bytes each (3 arguments need 24-44 GB: thorough tier)" stubs="core::fmt::write -> Ok, writes nothing" timeout=2400 mem=44 nocover=1
-c20_b!(shape_b_2x3, 2, 6);
-// @ob C20 thorough shape_b_4x3 fns=<ShapeB as ArgParse>::arg_parse(derive),u8::from_str bound="<=4 arguments of <=3 arbitrary bytes each" stubs="core::fmt::write -> Ok, writes nothing" timeout=3400 mem=44
-c20_b!(shape_b_4x3, 4, 7);
+// @ob C20 quick shape_b1_2x3 fns=<ShapeB1 as ArgParse>::arg_parse(derive),u8::from_str,UnixStr::as_str bound="required numeric option + optional positional; <=2 arguments of <=3 arbitrary bytes each" stubs="core::fmt::write -> Ok, writes nothing" timeout=1800 mem=30
+c20_b1!(shape_b1_2x3, 2, 6);
+// @ob C20 quick shape_b2_2x3 fns=<ShapeB2 as ArgParse>::arg_parse(derive) bound="repeated option + optional positional; <=2 arguments of <=3 arbitrary bytes each" stubs="core::fmt::write -> Ok, writes nothing" timeout=1800 mem=30
+c20_b2!(shape_b2_2x3, 2, 6);
+// @ob C20 thorough shape_b1_3x3 fns=<ShapeB1 as ArgParse>::arg_parse(derive),u8::from_str bound="<=3 arguments of <=3 arbitrary bytes each" stubs="core::fmt::write -> Ok, writes nothing" timeout=3400 mem=44
+c20_b1!(shape_b1_3x3, 3, 6);
+// @ob C20 thorough shape_b2_3x3 fns=<ShapeB2 as ArgParse>::arg_parse(derive) bound="<=3 arguments of <=3 arbitrary bytes each" stubs="core::fmt::write -> Ok, writes nothing" timeout=3400 mem=44
+c20_b2!(shape_b2_3x3, 3, 6);
 
 // ------------------------------------------------------------------ shapes C and D (subcommands)
 #[derive(PartialEq, Clone, Copy)]
